@@ -10,7 +10,8 @@ pub fn keyed_header(ff: (u32, u32)) -> Hdr {
     let mut h = Hdr::new(ff);
     let svlen = crate::gen_::svlen_num(ff);
     for (id, num, ty) in [
-        ("CIEND", Num::Count(2), Ty::Integer),
+        // Number=2 up to 4.3, Number=. from 4.4 (the header parser checks reserved keys)
+        ("CIEND", if ff >= (4, 4) { Num::Unknown } else { Num::Count(2) }, Ty::Integer),
         ("END", Num::Count(1), Ty::Integer),
         ("ENDX", Num::Count(1), Ty::Integer),
         ("EN", Num::Count(1), Ty::String),
